@@ -71,6 +71,7 @@ thrown wthrow(int eid);                // THROW expression
 trompeloeil::sequence& wseq(int k);
 // objects named by sites
 Mk& wmock(int obj);
+template <int K> inline Mk& wmock_s(int obj) { return wmock(obj); }
 
 using ExpPtr = std::unique_ptr<trompeloeil::expectation>;
 struct Created { ExpPtr p; unsigned long line; };
